@@ -501,7 +501,15 @@ func (e *Engine) extractModel(extra *Term) Violation {
 	s.Push()
 	defer s.Pop()
 	s.Assert(extra)
-	if s.Check() != "sat" {
+	if r := s.Check(); r != "sat" {
+		v.Model["_modelcheck"] = r
+		if os.Getenv("GOSYM_DEBUG") != "" {
+			str := extra.String()
+			if len(str) > 400 {
+				str = str[:400]
+			}
+			fmt.Fprintf(os.Stderr, "MODELCHECK %s dirty=%v sliced=%d depth=%d extra=%s\n", r, e.dirty, e.sol.Sliced, e.sol.Depth(), str)
+		}
 		return v
 	}
 	// scalars and array lengths first
@@ -920,7 +928,9 @@ func (e *Engine) sampleString() string {
 func (e *Engine) runOnce() (out pathEnd) {
 	e.trace = e.trace[:0]
 	e.pos = 0
-	e.dirty = e.fresh
+	// the satisfiability of the replayed prefix is not known: a previous run may have ended (at a Choose
+	// fork, say) before any assumption of the prefix was checked
+	e.dirty = true
 	e.freshCnt = map[string]int{}
 	e.inputs = nil
 	e.uniq = map[int32]*Term{}
